@@ -1,0 +1,48 @@
+//go:build verif
+
+package tsi
+
+import "bytes"
+
+// VerifTagRow is one tag->tsids row of (measurement, tag key) as a table search sees it: the
+// items of all parts of the index table merged in item order.
+type VerifTagRow struct {
+	Value string
+	TSIDs []uint64
+}
+
+// VerifTagRows lists the tag->tsids rows of (name, tagKey) in the order in which
+// searchTagValuesBySingleKey walks them (same prefix, same table search, same row parser),
+// without any of its shortcuts: every row, with every tsid it lists.
+func (idx *MergeSetIndex) VerifTagRows(name, tagKey []byte) ([]VerifTagRow, error) {
+	is := idx.getIndexSearch()
+	defer idx.putIndexSearch(is)
+	ts := &is.ts
+	kb := &is.kb
+	mp := &is.mp
+	mp.Reset()
+
+	compositeKey := kbPool.Get()
+	defer kbPool.Put(compositeKey)
+	compositeKey.B = marshalCompositeTagKey(compositeKey.B[:0], name, tagKey)
+	kb.B = append(kb.B[:0], nsPrefixTagToTSIDs)
+	kb.B = marshalTagValue(kb.B, compositeKey.B)
+	prefix := append([]byte(nil), kb.B...)
+	ts.Seek(prefix)
+	var rows []VerifTagRow
+	for ts.NextItem() {
+		item := ts.Item
+		if !bytes.HasPrefix(item, prefix) {
+			break
+		}
+		if err := mp.Init(item, nsPrefixTagToTSIDs); err != nil {
+			return nil, err
+		}
+		mp.ParseTSIDs()
+		rows = append(rows, VerifTagRow{Value: string(mp.Tag.Value), TSIDs: append([]uint64(nil), mp.TSIDs...)})
+	}
+	if err := ts.Error(); err != nil {
+		return nil, err
+	}
+	return rows, nil
+}
